@@ -3,3 +3,4 @@ import IbexModel.Itv
 import IbexModel.Box
 import IbexModel.ItvG
 import IbexModel.Bwd
+import IbexModel.Expr
